@@ -608,6 +608,7 @@ class Exec:
         if conn is s.main_ws:
             s.causes.append({'t': self.now, 'cause': 'ws-close', 'step': len(self.actions),
                              'det': self.annotate_live(s)})
+            s.client_closed = True      # the client's only transport is gone: it stops acting
         elif self._handshake_complete_on(s, conn):
             # the whole handshake was sent on it (not yet confirmed at a quiet point): it may be
             # the session's transport by now - a possible cause, never a certain one
@@ -630,6 +631,7 @@ class Exec:
         if conn is s.main_ws:
             s.causes.append({'t': self.now, 'cause': 'ws-fail', 'step': len(self.actions),
                              'det': self.annotate_live(s)})
+            s.client_closed = True      # the client's only transport is gone: it stops acting
         elif self._handshake_complete_on(s, conn):
             # the whole handshake was sent on it (not yet confirmed at a quiet point): it may be
             # the session's transport by now - a possible cause, never a certain one
